@@ -80,6 +80,14 @@ def random_history(rng):
     k = int(rng.integers(1, 5))
     return [(gen.loguniform(rng, 0.05, 20), gen.loguniform(rng, 0.005, 3)) for _ in range(k)]
 
+def grid_list(n, L):
+    """a grid list 'at or above the sample size' of length L, fine enough for the refinement clause (calibrated on the unchanged
+    tree: worst error 0.7 % over lengths 1…6)"""
+    if L == 1: return [max(400, 20 * n)]
+    if L == 2:
+        b = max(6 * n, 120); return [b, b + 40]
+    b = max(n + 10, 40); return [b + 10 * i for i in range(L)]
+
 def nsteps(epochs, tf):
     return sum(T / (tf / (0.25 / nu)) for nu, T in epochs)
 
@@ -92,11 +100,13 @@ def coalescent_convergence(chk, ctx, rng, n_cases, tier):
         # keep the run time bounded: total steps at tf/10
         while nsteps(ep, 1e-4) > (4e5 if tier == 'thorough' else 1.2e5):
             ep = random_history(rng)
-        base = max(n + 10, 40); pts = [base, base + 10, base + 20]
+        # grid lists of every length the extrapolation wrappers accept (1 = no extrapolation, on a fine grid; 2…6 grids)
+        L = [3, 1, 2, 4, 3, 6, 5, 1][(it + it // 8) % 8]
+        pts = grid_list(n, L)
         log = bool(it % 2); as_func = bool((it // 2) % 2)
         th = coalescent_sfs(n, ep)
         inp = dict(n=n, epochs=ep, pts=pts, log=log, as_func=as_func)
-        key = 'coalescent:%s:%s' % ('log' if log else 'lin', 'func' if as_func else 'const')
+        key = 'coalescent:%s:%s:grids=%d' % ('log' if log else 'lin', 'func' if as_func else 'const', L)
         chk.l3((key, len(ep), n))
         try:
             fine = sfs_model(dadi, n, ep, pts, 1e-4, log=log, as_func=as_func)
